@@ -1154,10 +1154,13 @@ def env_pw(pw, new=None):
     return e
 
 
-def gen_key(world, name, pw, outfile=None, rand=None):
-    """kestrel key generate; name: str.  Returns the Run."""
+DECOY_NEW_PASSWORD = b"a DIFFERENT new password"   # KESTREL_NEW_PASSWORD belongs to change-pass only: nothing else may read it
+
+
+def gen_key(world, name, pw, outfile=None, rand=None, decoy=False):
+    """kestrel key generate; name: str.  Returns the Run.  decoy: KESTREL_NEW_PASSWORD is set as well, to another value"""
     argv = ["key", "generate"] + (["-o", outfile] if outfile else []) + ["--env-pass"]
-    env = env_pw(pw)
+    env = env_pw(pw, DECOY_NEW_PASSWORD if decoy else None)
     if rand is not None:
         env["KESTREL_VERIF_RANDOM"] = rand.hex()
     return world.run(argv, env=env, stdin=name.encode("utf-8") + b"\n")
@@ -1255,6 +1258,9 @@ class C16(ProcProp):
                               "pt": ctx.rbytes(rng.choice([0, 10, 70000]))})
             recs = self.pmap(lambda pl: self.one_history(w, pl), plans)
             self.judge_histories(ctx, w, recs)
+            some = [rec["strs"][0].decode() for rec in recs if rec.get("ok") and rec["strs"]]
+            if some:
+                nonutf8_password_checks(ctx, w, "keys", locked=some[0])
             ctx.evaluations += w.nruns
             self.count(ctx, "proc:runs", w.nruns)
         finally:
@@ -1263,7 +1269,7 @@ class C16(ProcProp):
     def one_history(self, w, pl):
         runs, strs, pubs = [], [], []
         inj = pl["inject"]
-        r = gen_key(w, pl["name"], pl["pws"][0], rand=pl["rand"][0] if inj else None)
+        r = gen_key(w, pl["name"], pl["pws"][0], rand=pl["rand"][0] if inj else None, decoy=(pl["h"] % 2 == 1))
         runs.append(("generate", r))
         name, pub, s0 = parse_block(r.out)
         rec = {"plan": pl, "runs": runs, "strs": strs, "pubs": pubs, "gen_pub": pub, "gen_name": name, "ok": r.rc == 0 and s0 is not None}
@@ -1479,7 +1485,7 @@ class C14(ProcProp):
             w.write(f, init)
         snaps, runs = [init], []
         for nm, pw in zip(pl["names"], pl["pws"]):
-            r = gen_key(w, nm, pw, outfile=f)
+            r = gen_key(w, nm, pw, outfile=f, decoy=(pl["h"] % 2 == 1))
             runs.append(r)
             snaps.append(w.read(f))
         rec = {"plan": pl, "snaps": snaps, "runs": runs, "still_link": os.path.islink(w.p(f))}
@@ -1654,6 +1660,9 @@ class FileWorld(World):
         # the same keys, but the sender's public key is filed under ANOTHER name: tells which keyring was consulted
         self.write("kr_renamed", key_block(b"zed", self.pub["alice"]) + b"\n" + B["bob"] + b"\n" + B["carol"])
         self.write("kr_junk", b"this is not a keyring\n")
+        # another key filed under a name that differs from the recipient's only in case, listed FIRST: -t bob still means bob
+        twin = key_block(b"BOB", self.pub["carol"], parse_block(B["carol"])[2])
+        self.write("kr_casetwin", twin + b"\n" + pubonly("alice") + b"\n" + B["bob"])
         # a contact whose PublicKey is well-formed base64 of 36 bytes with a WRONG checksum (the parser accepts it; it is
         # neither sender nor recipient), listed before / after the sender
         raw = ctx.rbytes(32)
@@ -1661,7 +1670,10 @@ class FileWorld(World):
         mallory = key_block(b"mallory", base64.b64encode(raw + bytes([ck[0] ^ 0x55]) + ck[1:]))
         self.write("kr_badck_before", mallory + b"\n" + pubonly("alice") + b"\n" + B["bob"] + b"\n" + B["carol"])
         self.write("kr_badck_after", B["bob"] + b"\n" + pubonly("alice") + b"\n" + mallory + b"\n" + B["carol"])
-        self.P = {"small": ctx.rbytes(1000), "big": ctx.rbytes(CHUNK + 1234), "empty": b""}
+        self.P = {"small": ctx.rbytes(1000), "big": ctx.rbytes(CHUNK + 1234), "empty": b"",
+                  # long runs of zero bytes, at the end, filling the last chunk, everything, at the start
+                  "zeros": bytes(8192), "zerotail": ctx.rbytes(CHUNK) + bytes(8192), "zeros2": bytes(CHUNK + 8192),
+                  "zerohead": bytes(8192) + ctx.rbytes(1000), "zeromid": ctx.rbytes(3000) + bytes(20000) + ctx.rbytes(10)}
         self.passpw = "p\u00e4ss".encode("utf-8")
         for k, v in self.P.items():
             self.write("pt_" + k, v)
@@ -1775,6 +1787,65 @@ def pipe_delivery_checks(ctx, w=None):
             w.close()
 
 
+BAD_ENV_VALUES = [b"pw\xff", b"\xfe", b"caf\xe9", b"ok\xc3", b"\xed\xa0\x80"]
+
+
+def nonutf8_password_checks(ctx, w, scope, locked=None):
+    """a password variable whose value is not UTF-8 is REFUSED (exit 1, the 'Could not read data from ...' message, nothing
+    written): passwords are byte strings of the documented format, a lossy conversion would make different passwords equal.
+    scope 'files': the four file commands (needs a FileWorld); scope 'keys': key generate / change-pass / extract-pub"""
+    PW, NPW = b"KESTREL_PASSWORD", b"KESTREL_NEW_PASSWORD"
+    jobs = []
+    for i, bad in enumerate(BAD_ENV_VALUES):
+        o = "nu_%s_%d" % (scope, i)
+        if scope == "files":
+            kr = {b"KESTREL_KEYRING": b"kr_full"}
+            jobs += [("password encrypt -o", ["password", "encrypt", "pt_small", "-o", o + "a", "--env-pass"], {PW: bad}, b"", PW, o + "a"),
+                     ("password encrypt to stdout", ["pass", "enc", "pt_small", "--env-pass"], {PW: bad}, b"", PW, None),
+                     ("password decrypt -o", ["password", "decrypt", "pct_small", "-o", o + "b", "--env-pass"], {PW: bad}, b"", PW, o + "b"),
+                     ("encrypt -o", ["encrypt", "pt_small", "-t", "bob", "-f", "alice", "-o", o + "c", "--env-pass"], {**kr, PW: bad}, b"", PW, o + "c"),
+                     ("decrypt to stdout", ["decrypt", "ct_small", "-t", "bob", "--env-pass"], {**kr, PW: bad}, b"", PW, None),
+                     ("password encrypt, bad KESTREL_NEW_PASSWORD is not looked at", ["password", "encrypt", "pt_small", "-o", o + "d", "--env-pass"],
+                      {PW: b"fine", NPW: bad}, b"", None, o + "d")]
+        else:
+            jobs += [("key generate -o", ["key", "generate", "-o", o + "a", "--env-pass"], {PW: bad}, b"somebody\n", PW, o + "a"),
+                     ("key generate to stdout", ["key", "gen", "--env-pass"], {PW: bad}, b"somebody\n", PW, None),
+                     ("key change-pass, old password", ["key", "change-pass", locked, "--env-pass"], {PW: bad, NPW: b"new"}, b"", PW, None),
+                     ("key change-pass, new password", ["key", "change-pass", locked, "--env-pass"], {PW: b"pw", NPW: bad}, b"", NPW, None),
+                     ("key extract-pub", ["key", "extract-pub", locked, "--env-pass"], {PW: bad}, b"", PW, None)]
+
+    def one(j):
+        name, argv, env, sin, var, outp = j
+        e = {b"PATH": b"/usr/bin:/bin", b"HOME": os.fsencode(w.dir)}
+        e.update(env)
+        try:
+            pr = subprocess.run([w.bin] + argv, env=e, input=sin, stdout=subprocess.PIPE, stderr=subprocess.PIPE, start_new_session=True,
+                                timeout=120, cwd=w.dir)
+            rc, out, err = pr.returncode, pr.stdout, pr.stderr
+        except subprocess.TimeoutExpired:
+            rc, out, err = 124, b"", b"[timeout]"
+        w.nruns += 1
+        made = w.read(outp) if outp else None
+        if outp and made is not None and var is not None:
+            os.remove(w.p(outp))
+        return Run(argv, {k.decode(): repr(v) for k, v in env.items()}, sin, rc, out, err), made
+    with ThreadPoolExecutor(max_workers=NPROC) as ex:
+        res = list(ex.map(one, jobs))
+    for (name, argv, env, sin, var, outp), (r, made) in zip(jobs, res):
+        sc = "non-UTF-8 password variable: %s" % name
+        ctx.distribution["non-utf8-env:" + scope] = ctx.distribution.get("non-utf8-env:" + scope, 0) + 1
+        if var is None:
+            proc_judge(ctx, r.rc == 0 and made, sc, [r.describe()], "a variable the command does not read is not looked at: exit 0", "exit %d, stderr %r"
+                       % (r.rc, r.errtext()[-160:]))
+            continue
+        msg = "Could not read data from %s environment variable" % var.decode()
+        proc_judge(ctx, r.rc == 1 and msg in r.errtext() and r.out == b"" and made is None, sc, [r.describe()],
+                   "the value is refused: exit 1, 'Error: %s', nothing on stdout, no output file" % msg,
+                   "exit %d, stdout %d bytes, output file %s, stderr %r" % (r.rc, len(r.out), "absent" if made is None else "%d bytes" % len(made),
+                                                                          r.errtext()[-200:]))
+    ctx.evaluations += len(jobs)
+
+
 # =========================================================================== C12
 class C12(ProcProp):
     id = "C12"
@@ -1812,6 +1883,9 @@ class C12(ProcProp):
             P = w.P
             inputs = [("valid-small", "ct_small", "bob", P["small"], True), ("valid-big", "ct_big", "bob", P["big"], True),
                       ("valid-empty", "ct_empty", "bob", b"", True),
+                      ("valid-zeros", "ct_zeros", "bob", P["zeros"], True), ("valid-zerotail", "ct_zerotail", "bob", P["zerotail"], True),
+                      ("valid-zeros2", "ct_zeros2", "bob", P["zeros2"], True), ("valid-zerohead", "ct_zerohead", "bob", P["zerohead"], True),
+                      ("valid-zeromid", "ct_zeromid", "bob", P["zeromid"], True),
                       ("bad-chunk1", "ct_bad1", "bob", b"", False), ("bad-chunk2", "ct_bad2", "bob", P["big"][:CHUNK], False),
                       ("wrong-recipient", "ct_small", "carol", b"", False), ("password-file", "pct_small", "bob", b"", False),
                       # an authentic file followed by one byte / by a copy of its last record: NOT a complete delivery
@@ -1827,8 +1901,8 @@ class C12(ProcProp):
                     return ["absent", "sentinel"]
                 return [rng.choice(["absent", "sentinel"])]
             for (iname, f, to, deliver, ok) in inputs:
-                for kr in (("kr_first",) if iname.startswith("trailing") else
-                           ("kr_first", "kr_last", "kr_absent") + (("kr_badck_before", "kr_badck_after") if ok else ())):
+                for kr in (("kr_first",) if iname.startswith(("trailing", "valid-zero")) else
+                           ("kr_first", "kr_last", "kr_absent") + (("kr_badck_before", "kr_badck_after", "kr_casetwin") if ok else ())):
                     gid += 1
                     for c in pickw(wir):
                         for pre in pres(iname, c):
@@ -1838,6 +1912,8 @@ class C12(ProcProp):
             # ---- password decryption
             pin = [("valid-small", "pct_small", w.passpw, P["small"], True), ("valid-big", "pct_big", w.passpw, P["big"], True),
                    ("valid-empty", "pct_empty", w.passpw, b"", True),
+                   ("valid-zeros", "pct_zeros", w.passpw, P["zeros"], True), ("valid-zerotail", "pct_zerotail", w.passpw, P["zerotail"], True),
+                   ("valid-zeros2", "pct_zeros2", w.passpw, P["zeros2"], True), ("valid-zerohead", "pct_zerohead", w.passpw, P["zerohead"], True),
                    ("bad-chunk1", "pct_bad1", w.passpw, b"", False), ("bad-chunk2", "pct_bad2", w.passpw, P["big"][:CHUNK], False),
                    ("wrong-password", "pct_small", b"other", b"", False), ("key-file", "ct_small", w.passpw, b"", False),
                    ("trailing-byte-small", "pct_small_x1", w.passpw, b"", False), ("trailing-record-small", "pct_small_xr", w.passpw, b"", False),
@@ -1882,6 +1958,13 @@ class C12(ProcProp):
                         jobs.append({"g": gid, "group": "password encrypt %s %s" % (pt, "injected" if injected else "os-random"), "cmd": "pass-encrypt",
                                      "cfg": c, "in": "pt_" + pt, "to": None, "kr": None, "pw": w.passpw, "ok": True,
                                      "rand": rnd[:32] if injected else None, "plain": P[pt], "injected": injected})
+            # ---- self-addressed encryption (--to = --from): stdout carries the ciphertext and nothing else
+            for pt in ("small", "big", "zeros2"):
+                gid += 1
+                for c in pickw(wir):
+                    jobs.append({"g": gid, "group": "encrypt %s to self (alice -> alice)" % pt, "cmd": "encrypt", "cfg": c, "in": "pt_" + pt, "to": "alice",
+                                 "from": "alice", "dec_to": "alice", "kr": "kr_full", "pw": w.pw["alice"], "ok": True, "rand": rnd, "plain": P[pt],
+                                 "injected": True})
             # failing encryptions: exit 1 + message, same across wirings
             for why, to, frm, pw in (("unknown-recipient", "nobody", "alice", w.pw["alice"]), ("wrong-password", "bob", "alice", b"nope"),
                                      ("sender-without-private-key", "bob", "alice", w.pw["alice"])):
@@ -1894,6 +1977,7 @@ class C12(ProcProp):
             res = self.pmap(lambda j: self.one(w, j), jobs)
             self.judge_all(ctx, w, jobs, res)
             pipe_delivery_checks(ctx, w)
+            nonutf8_password_checks(ctx, w, "files")
             ctx.evaluations += w.nruns
             self.count(ctx, "proc:runs", w.nruns)
         finally:
@@ -1913,6 +1997,8 @@ class C12(ProcProp):
         argv, env, stdin = wire(j["cmd"], j["cfg"], j["in"], out, to=j.get("to"), frm=j.get("from"), keyring=j.get("kr"), pw=j["pw"], extra_env=env0)
         if j.get("env_kr"):
             env["KESTREL_KEYRING"] = j["env_kr"]
+        if j["i"] % 2 == 0:
+            env["KESTREL_NEW_PASSWORD"] = DECOY_NEW_PASSWORD.decode()     # must be ignored by every command run here
         r = w.run(argv, env=env, stdin=stdin)
         filed = w.read(out)
         delivered = (filed if filed is not None else b"") if j["cfg"]["out"] == "o" else r.out
@@ -1922,7 +2008,8 @@ class C12(ProcProp):
             # decrypt what was produced, with a fixed wiring
             w.write(out + ".ct", delivered)
             if j["cmd"] == "encrypt":
-                d = w.run(["decrypt", out + ".ct", "-t", "bob", "-o", out + ".pt", "-k", "kr_full", "--env-pass"], env=env_pw(w.pw["bob"]))
+                to = j.get("dec_to", "bob")
+                d = w.run(["decrypt", out + ".ct", "-t", to, "-o", out + ".pt", "-k", "kr_full", "--env-pass"], env=env_pw(w.pw[to]))
             else:
                 d = w.run(["password", "decrypt", out + ".ct", "-o", out + ".pt", "--env-pass"], env=env_pw(w.passpw))
             res["dec"] = d
@@ -1960,6 +2047,13 @@ class C12(ProcProp):
                 else:
                     self.judge(ctx, (run.rc == 0) == j["ok"] and run.rc in (0, 1), sc, [run], "exit %d" % (0 if j["ok"] else 1), "exit %d: %s" % (run.rc, run.errtext()[-200:]))
                     if j["ok"] and run.rc == 0:
+                        n = len(j["plain"])
+                        if n % CHUNK:
+                            magic, hdr = (b"egk\x10", HDR) if j["cmd"] == "encrypt" else (b"egk\x20", PHDR)
+                            want_len = hdr + 32 * (n // CHUNK + 1) + n
+                            self.judge(ctx, r["delivered"][:4] == magic and len(r["delivered"]) == want_len, sc, [run],
+                                       "the output is the ciphertext and nothing else: magic %s, exactly %d bytes" % (magic.hex(), want_len),
+                                       "%d bytes beginning %r" % (len(r["delivered"]), r["delivered"][:40]))
                         d = r.get("dec")
                         self.judge(ctx, d is not None and d.rc == 0 and r.get("dec_plain") == j["plain"], sc, [run] + ([d] if d else []),
                                    "what was encrypted decrypts to the original %d bytes" % len(j["plain"]),
@@ -2814,6 +2908,16 @@ def c12_model_cases(ctx, mw):
     pcfg = [dict(c, kr="k") for c in MW4]
     cases.append(wired_case("password encrypt", "pass-encrypt", pcfg[1], "pt", mw.plain, {"pt": mw.plain}, pw=mw.passpw, rnd=ctx.rbytes(32),
                             tags=["model:pass-encrypt"]))
+    # KESTREL_NEW_PASSWORD set as well, to another value: only change-pass reads it (Cli.v::confirm_password reads env_password)
+    for cfg in (pcfg[0], pcfg[3]):
+        c = wired_case("password encrypt, KESTREL_NEW_PASSWORD also set", "pass-encrypt", cfg, "pt", mw.plain, {"pt": mw.plain}, pw=mw.passpw,
+                       rnd=ctx.rbytes(32), tags=["model:both-password-variables"])
+        c.a["npw"] = DECOY_NEW_PASSWORD.hex()
+        cases.append(c)
+    c = wired_case("encrypt, KESTREL_NEW_PASSWORD also set", "encrypt", MW4[0], "pt", mw.plain, {"pt": mw.plain, "kr": mw.kr["full"]}, to="bob",
+                   frm="alice", keyring="kr", pw=mw.pw["alice"], rnd=ctx.rbytes(64), tags=["model:both-password-variables"])
+    c.a["npw"] = DECOY_NEW_PASSWORD.hex()
+    cases.append(c)
     for j, (nm, data, pw) in enumerate([("valid", mw.pct, mw.passpw), ("valid", mw.pct, mw.passpw), ("wrong-password", mw.pct, b"other"),
                                         ("bad-chunk1", mw.pct_bad1, mw.passpw), ("key-file", mw.ct, mw.passpw)]):
         cases.append(wired_case("password decrypt %s" % nm, "pass-decrypt", pcfg[j % 4], "in.ct", data, {"in.ct": data}, pw=pw,
@@ -2945,7 +3049,8 @@ def c14_model_cases(ctx, mw, root):
         for h in H:
             if step < len(h["names"]):
                 c = CliCase("generate #%d into F, initially %s" % (step + 1, h["state"]), ["key", "generate", "-o", "F", "--env-pass"],
-                            h["files"], pw=h["pws"][step], stdin=h["names"][step].encode("utf-8") + b"\n", rnd=ctx.rbytes(64), watch=["F"],
+                            h["files"], pw=h["pws"][step], npw=(DECOY_NEW_PASSWORD if step % 2 == 0 else None),
+                            stdin=h["names"][step].encode("utf-8") + b"\n", rnd=ctx.rbytes(64), watch=["F"],
                             tags=["model:generate-%s" % h["state"]], oracle=no_stray)
                 batch.append((h, c))
         exec_cli_cases([c for _, c in batch], os.path.join(root, "s%d" % step))
@@ -2976,8 +3081,9 @@ def c16_model_cases(ctx, mw):
          ("extract-pub wrong password", XP, b"pw-alice ", None, b""),
          ("extract-pub malformed key", ["key", "extract-pub", "ZWdrMA", "--env-pass"], pw, None, b""),
          ("extract-pub two keys", XP + [S], pw, None, b""),
-         ("generate to stdout", ["key", "gen", "--env-pass"], b"gen pw\t", None, ctx.rbytes(64))]
-    return [CliCase(lbl, argv, {}, pw=p, npw=n, stdin=(b"fresh key\n" if argv[1] == "gen" else b""), rnd=r,
+         ("generate to stdout", ["key", "gen", "--env-pass"], b"gen pw\t", None, ctx.rbytes(64)),
+         ("generate to stdout, KESTREL_NEW_PASSWORD also set", ["key", "generate", "--env-pass"], b"gen pw", DECOY_NEW_PASSWORD, ctx.rbytes(64))]
+    return [CliCase(lbl, argv, {}, pw=p, npw=n, stdin=(b"fresh key\n" if argv[1] in ("gen", "generate") else b""), rnd=r,
                     tags=["model:" + " ".join(lbl.split()[:1])], oracle=no_stray) for (lbl, argv, p, n, r) in L]
 
 
